@@ -69,7 +69,7 @@ structure DSt where
 
 def init (fields : List String) : DSt :=
   match fields with
-  | [who, smid, n0] => ⟨who == "client", (decStr smid).getD "", n0.toNat?.getD 0, []⟩
+  | [who, smid, n0] => ⟨who != "component", (decStr smid).getD "", n0.toNat?.getD 0, []⟩
   | _ => ⟨true, "", 0, []⟩
 
 def parseIn : List String → Option In
